@@ -104,9 +104,9 @@ def gen_filter(rng, partitioned, nrows):
     return [['f', '>', 0.0], ['uid', '>=', rng.randrange(0, max(2, nrows))]]
 
 
-def gen_op(rng, cfg, nrg, nrows, partitioned, v2=False):
+def gen_op(rng, cfg, nrg, nrows, partitioned, v2=False, extras=()):
     kinds = ['read', 'read', 'cols', 'filt', 'filt', 'cats', 'stats', 'spc',
-             'pickle', 'attrs', 'count']
+             'pickle', 'attrs', 'count', 'text']
     if not v2:
         # row-level filtering over data page v2 or over chunks of several
         # pages fails sequentially today (C13 domain): v2 here means "either"
@@ -116,7 +116,7 @@ def gen_op(rng, cfg, nrg, nrows, partitioned, v2=False):
     k = rng.choice(kinds)
     op = {'op': k}
     if k == 'cols':
-        cols = list(DATA_COLS)
+        cols = list(DATA_COLS) + list(extras)
         rng.shuffle(cols)
         op['columns'] = cols[:rng.randrange(1, len(cols))]
     elif k in ('filt', 'rowfilt', 'count'):
@@ -157,6 +157,9 @@ def generate(seed, idx, tier):
     codecs = [c for c in F.CODECS if F.codec_ok(c, knobs, True)]
     codec = drng.choice(codecs)
     vseed = drng.randrange(2 ** 31)
+    # optional columns: JSON-encoded objects (decoded through the module-level
+    # codec cache) and a timezone-aware timestamp
+    extras = drng.choice(([], ['j'], ['tz'], ['j', 'tz']))
     mode = 'write' if rng.random() < 0.12 else 'read'
     cfg = rng.choice(('A', 'B', 'B'))
     nthreads = rng.choice((2, 2, 3, 3, 4, 4, 4, 6, 8, 16))
@@ -164,7 +167,8 @@ def generate(seed, idx, tier):
     if mode == 'read':
         for _ in range(nthreads):
             threads.append([gen_op(rng, cfg, nrg, nrows, layout == 'hivep',
-                                   knobs['v2'] or knobs['page'] is not None)
+                                   knobs['v2'] or knobs['page'] is not None,
+                                   extras)
                             for _ in range(rng.choice((1, 1, 2, 3)))])
     else:
         nthreads = min(nthreads, 6)
@@ -185,7 +189,7 @@ def generate(seed, idx, tier):
         strategy = ['coarse']
     return {'prop': PROP, 'seed': seed, 'idx': idx, 'tier': tier,
             'knobs': knobs, 'layout': layout, 'nrg': nrg, 'per': per,
-            'codec': codec, 'vseed': vseed,
+            'codec': codec, 'vseed': vseed, 'extras': extras,
             'mode': mode, 'cfg': cfg, 'threads': threads,
             'strategy': strategy, 'sched_seed': srng.randrange(2 ** 31)}
 
@@ -204,6 +208,10 @@ def frame_spec(case, batch=0, nrows=None, vseed=None):
                      ['d', 'dt', 'some', vs + 5, None],
                      ['b', 'bool', 'none', vs + 6, None]],
             'part': {}}
+    if 'j' in case.get('extras', ()):
+        spec['cols'].append(['j', 'json', 'some', vs + 8, None])
+    if 'tz' in case.get('extras', ()):
+        spec['cols'].append(['tz', 'dttz', 'some', vs + 9, 'Europe/Paris'])
     if case['layout'] == 'hivep':
         spec['part'] = {'p': ['pstr', ['a', 'b'], vs + 7]}
     return spec
@@ -214,7 +222,8 @@ _DS_CACHE = {}
 
 def dataset_key(case):
     return json.dumps([case['layout'], case['nrg'], case['per'],
-                       case['codec'], case['vseed'], case['knobs']],
+                       case['codec'], case['vseed'], case['knobs'],
+                       case.get('extras')],
                       sort_keys=True)
 
 
@@ -243,7 +252,9 @@ def build_dataset(case, fs):
     D.do_write(fs, path, df, {'codec': case['codec'], 'rgo': case['per'],
                               'stats': True},
                'simple' if layout == 'simple' else 'hive',
-               ['p'] if layout == 'hivep' else [])
+               ['p'] if layout == 'hivep' else [],
+               extra={'object_encoding': {'j': 'json', 's': 'utf8'}}
+               if 'j' in case.get('extras', ()) else None)
     return path
 
 
@@ -316,6 +327,10 @@ def run_op(pf, op):
                 'kv': sorted(pf.key_value_metadata), 'len': len(pf)}
     if k == 'count':
         return pf.count(filters=tup(op['filters']))
+    if k == 'text':
+        return [str(pf), repr(pf.schema), pf.schema.text,
+                pf.schema == pf.schema, bool(pf), pf.file_scheme,
+                sorted(pf.cats), sorted(pf.categories or ())]
     if k == 'slice':
         sub = pf[op['i']:op['j']]
         if op['then'] == 'count':
